@@ -8,7 +8,7 @@ namespace SharedHeap
 @[simp] theorem set_wire (g : G) (b : Bid) (x : Buf) : (set g b x).wire = g.wire := rfl
 @[simp] theorem emit_heap (g : G) (c : Cid) (d : Bytes) : (emit g c d).heap = g.heap := rfl
 @[simp] theorem emit_wire (g : G) (c : Cid) (d : Bytes) (i : Cid) :
-    (emit g c d).wire i = if i = c then g.wire c ++ d else g.wire i := rfl
+    (emit g c d).wire i = if i = c then g.wire c ++ [d] else g.wire i := rfl
 
 /-- what connection `a` can see is the same in the interleaved state `g` and the solo state `s` -/
 structure Sim (a : Cid) (g s : G) : Prop where
